@@ -76,6 +76,10 @@ def top_calls(expr):
     return out
 
 
+def _has_barrier_enter(node):
+    return any(x.get('k') in ('Call', 'MCall') and x.get('f') == ENTER and any('LocalBarrier' in _arg_sig(a) for a in x['a']) for x in hir_walk(node))
+
+
 def run(db, tier):
     rep = Report("C10", tier, EXPLANATION, RULE)
     for r, t in (("R-RIB-PAIR", "enter_new_rib / leave_rib are balanced (LIFO, same arguments) in every block"),
@@ -124,7 +128,6 @@ def run(db, tier):
         # no early exit between brackets: the functions have no `?` / return
         rets = [n for n in hir_walk(f.hir) if n.get("k") == "Ret"]
         rep.check(not rets, "R-RIB-PAIR", "%s|no-early-return" % name, f.loc, "no early return can skip a leave_rib", "an early return can leave a rib entered")
-    rep.floor("rib bracket pairs", n_pairs, 8)
 
     # ---------------- R-PREDECLARE
     for name, later in (("visit_file", VIS + "visit_item"), ("visit_block", VIS + "visit_stmt")):
@@ -150,19 +153,32 @@ def run(db, tier):
         for v in vs:
             if v not in ("ast::Item::Func", "ast::Item::ConstVar"):
                 continue
-            seq = []
-            for n in hir_walk(arm["b"]):
-                if n.get("k") in ("Call", "MCall"):
-                    c = n.get("f")
-                    if c == ENTER and any("LocalBarrier" in _arg_sig(a) for a in n["a"]):
-                        seq.append(("barrier", n["ln"]))
-                    elif (c or "").rsplit("::", 1)[-1] in ("visit_block", "visit_expr"):
-                        seq.append(("body", n["ln"]))
-            b = [ln for k, ln in seq if k == "barrier"]
-            bodies = [ln for k, ln in seq if k == "body"]
-            rep.check(bool(b) and bool(bodies) and min(b) < min(bodies), "R-BARRIER", "visit_item|%s" % v.rsplit("::", 1)[-1],
-                      "%s:%d" % (f.file, arm["ln"]), "LocalBarrier rib entered before the body is resolved",
-                      "the %s arm resolves its body without first entering a LocalBarrier rib" % v)
+            # the barrier must be entered in the SAME statement list that resolves the body, before it (so: whenever the
+            # body is resolved, unconditionally)
+            okb = False
+            found_body = False
+            for blk in blocks_of(arm["b"]):
+                seq = []
+                for e in stmt_exprs(blk):
+                    direct = top_calls(e)
+                    for n in direct:
+                        c = n.get("f")
+                        if c == ENTER and any("LocalBarrier" in _arg_sig(a) for a in n["a"]):
+                            seq.append(("barrier", n["ln"]))
+                    # the body visit may sit inside a loop / closure of this statement
+                    for n in hir_walk(e):
+                        if n.get("k") in ("Call", "MCall") and (n.get("f") or "").rsplit("::", 1)[-1] in ("visit_block", "visit_expr"):
+                            if not any(x.get("k") == "Block" and x is not e and any(y is n for y in hir_walk(x)) and _has_barrier_enter(x) for x in hir_walk(e)):
+                                seq.append(("body", n["ln"]))
+                b = [ln for k, ln in seq if k == "barrier"]
+                bodies = [ln for k, ln in seq if k == "body"]
+                if bodies:
+                    found_body = True
+                    if b and min(b) < min(bodies):
+                        okb = True
+            rep.check(okb and found_body, "R-BARRIER", "visit_item|%s" % v.rsplit("::", 1)[-1],
+                      "%s:%d" % (f.file, arm["ln"]), "LocalBarrier rib entered, unconditionally, before the body is resolved",
+                      "the %s arm can resolve its body without first entering a LocalBarrier rib (the barrier is missing or only entered under a condition)" % v)
     # resolve side
     r = db.fn(RESOLVE)
     rep.fn(r)
@@ -275,6 +291,54 @@ def run(db, tier):
     rep.check(len(alias_idx) == 2 and len(const_idx) == 2 and max(alias_idx) < min(const_idx), "R-RIB-ORDER", "initial_ribs|aliases-outermost", g.loc,
               "rib order %s: constants are searched before (shadow) aliases" % order,
               "initial rib order %s: register/instruction aliases would shadow builtin or enum constants" % order)
+    # ---------------- R-LANG-SCOPE: the language that names are resolved in is restored after a nested item
+    from rules import hirq
+    rep.rule("R-LANG-SCOPE", "AssignLanguagesVisitor::visit_item sets the language for the item's body and RESTORES the enclosing language "
+                             "afterwards (push / walk / pop, or save / walk / restore the saved value): register and instruction aliases are "
+                             "only valid in their own language, also after a nested const/func item inside a script body")
+    al = db.fn("<passes::resolution::AssignLanguagesVisitor<'_, '_> as ast::mut_::VisitMut>::visit_item")
+    rep.fn(al)
+    La = hirq.lets(al)
+    walks = hirq.call_seq(al.hir, ("ast::mut_::walk_item",))
+    rep.floor("walk_item calls in AssignLanguagesVisitor::visit_item", len(walks), 1)
+    seq = hirq.call_seq(al.hir, ("Vec::<T, A>::push", "Vec::<T, A>::pop", "ast::mut_::walk_item"))
+    names = [c["f"].rsplit("::", 1)[-1] for c in seq]
+    stack_ok = True
+    i = 0
+    n_w = 0
+    while i < len(names):
+        if names[i] == "walk_item":
+            n_w += 1
+            if not (i > 0 and names[i - 1] == "push" and i + 1 < len(names) and names[i + 1] == "pop"):
+                stack_ok = False
+        i += 1
+    # alternative: save / restore through a local
+    assigns = [n for n in hir_walk(al.hir) if n.get("k") == "Assign"]
+    restore_ok = False
+    if walks and assigns:
+        wl = max(c["ln"] for c in walks)
+        after = [a for a in assigns if a.get("ln", 0) > wl]
+        before_reads = {}
+        for nm, inits in La.items():
+            for init in inits:
+                if init.get("ln", 0) < min(c["ln"] for c in walks):
+                    flds = [v for t_, v in hirq.features(al, init, {}) if t_ == "field"]
+                    if flds:
+                        before_reads[nm] = flds
+        for a in after:
+            lf = [v for t_, v in hirq.features(al, a["l"], {}) if t_ == "field"]
+            rl = [v for t_, v in hirq.features(al, a["r"], {}) if t_ == "local"]
+            if any(nm in before_reads and set(before_reads[nm]) & set(lf) for nm in rl):
+                restore_ok = True
+    rep.check((stack_ok and n_w >= 1) or restore_ok, "R-LANG-SCOPE", "visit_item|restore", al.loc,
+              "every walk_item is bracketed by push/pop of the language stack" if stack_ok else "the saved language is restored after the walk",
+              "the language in effect before a nested item is not restored after it (calls: %s): everything after a `const` or function item "
+              "nested in a script is resolved in the wrong language" % names)
+    for nm in ("visit_var", "visit_callable_name"):
+        vv = db.fn("<passes::resolution::AssignLanguagesVisitor<'_, '_> as ast::mut_::VisitMut>::" + nm)
+        rep.fn(vv)
+    if not any(not i["ok"] for i in rep.instances):
+        rep.floor("rib bracket pairs", n_pairs, 8)
     return rep
 
 
